@@ -6,6 +6,8 @@ from harness.core import Case, err_code
 from harness import clientlib as cl
 from harness.callreg_ext import a_clear_dtc, a_comm, a_dtc
 
+WIDE = 200000        # thorough tier: histories of the wide correspondence stream (widegen.py), judged by the model and the generic rule
+WIDE_QUICK = 2000
 PROP = 'C18'
 EXHAUSTIVE = True
 RULE = ('3 editions x {clear_dtc with/without memory selection, read_dtc_information subfunction 0..0xFF (all parameters supplied), '
